@@ -99,6 +99,7 @@ structure MState where
   fresh : List (String × List (List String)) := []    -- tag ↦ D lines (tokens after "D tag") of the last fresh compile
   freshR : List (String × List String) := []
   rno : Nat := 0
+  reasons : List String := []                -- why every load_binary call of the model answered as it did
   cleaned : Bool := false                    -- the case removed its directory first (replays are self-contained)
   out : List String := []                    -- newest first
   bad : List String := []
@@ -222,6 +223,35 @@ def sysLine (m : MState) (line : String) : MState :=
     let w := sampleConfigId w "/simul_efun.c"
     ({ m with sys := { m.sys with w := w } }).emit s!"restarted {w.configId}"
   | "expect" :: _ => m
+  | ["badload", name] =>
+    ((m.emit s!"lb {name}.c stale").emit s!"err *Error in loading object '/{name}':").emit s!"badload {name} failed"
+  | ["foreign", name, what] =>
+    let bp := binPath m.sys.w name
+    match m.sys.w.bins.lookup bp with
+    | some b =>
+      let b' := if what == "magic" then { b with magic := "?" ++ b.magic }
+                else if what == "driver" then { b with driverId := b.driverId + 1 }
+                else { b with configId := b.configId + 1 }
+      ({ m with sys := { m.sys with w := { m.sys.w with
+          bins := (bp, b') :: m.sys.w.bins.filter (·.1 != bp) } } }).emit s!"foreign {name} {what}"
+    | none => m.emit s!"foreign-nofile {name}"
+  | ["copybin", src, dst] =>
+    let bs := binPath m.sys.w src
+    let bd := binPath m.sys.w dst
+    match m.sys.w.bins.lookup bs, m.sys.w.mtime bs with
+    | some b, some t =>
+      ({ m with sys := { m.sys with w := { m.sys.w with
+          bins := (bd, b) :: m.sys.w.bins.filter (·.1 != bd),
+          files := (bd, t) :: m.sys.w.files.filter (·.1 != bd) } } }).emit s!"copybin {src} {dst}"
+    | _, _ => m.emit s!"copybin-nofile {src}"
+  | "corrupt" :: name :: _ =>
+    -- the file is damaged (truncated or a byte changed), its mtime kept: the checksum no longer matches
+    let bp := binPath m.sys.w name
+    match m.sys.w.bins.lookup bp with
+    | some b =>
+      ({ m with sys := { m.sys with w := { m.sys.w with
+          bins := (bp, { b with intact := false }) :: m.sys.w.bins.filter (·.1 != bp) } } }).emit s!"corrupted {name}"
+    | none => m.emit s!"corrupt-nofile {name}"
   | "reload" :: top :: fam =>
     if !m.cleaned then m.emit "badcase reload-before-clean" else
     let fam := top :: fam
@@ -234,6 +264,12 @@ def sysLine (m : MState) (line : String) : MState :=
     let (sys1, ok) := loadObject sys0 (top ++ ".c") 64
     let evs := sys1.evs.reverse
     let m := (evs.filterMap showEv).foldl MState.emit m
+    let m := { m with reasons := m.reasons ++ evs.filterMap (fun e => match e with
+      | .lb _ .use => some "use"
+      | .lb _ (.needs _) => some "needs-inherit"
+      | .lb _ (.stale why) => some s!"stale:{why}"
+      | .sv _ _ _ => some "save"
+      | _ => none) }
     let m := if ok then m else m.emit s!"loadfail {top}"
     let usedBin (tag : String) : Bool := evs.any (fun e => e == Ev.lb (tag ++ ".c") .use)
     -- dumps, in the order of the family list (duplicates of top removed)
@@ -279,6 +315,14 @@ def runModel (body : List String) : List String :=
   let m := caseLines.foldl (fun m l => if m.out.head? == some "crash sanitizer" then m else sysLine m (norm l)) m0
   m.out.reverse
 
+/-- branch histogram of the decision model (used by the evidence, not by the check) -/
+def runReasons (body : List String) : List String :=
+  let (caseLines, trace) := splitJudge body
+  let m0 : MState := { blocks := splitBlocks trace,
+                       sys := { w := { files := [("simul_efun.c", 2000000000)] } } }
+  let norm (l : String) : String := if l.startsWith "reloadp " then "reload " ++ (l.drop 8).toString else l
+  (caseLines.foldl (fun m l => sysLine m (norm l)) m0).reasons
+
 def runJudge (body : List String) : List String :=
   let (caseLines, impl) := splitJudge body
   match judge caseLines impl with
@@ -289,6 +333,7 @@ def main (mode : String) : IO Unit :=
   match mode with
   | "model" => serve runModel
   | "judge" => serve runJudge
+  | "reasons" => serve runReasons
   | _ => IO.eprintln s!"C17: unknown mode {mode}"
 
 end NV.C17
